@@ -209,7 +209,7 @@ def run_check(pid, tier, seed):
         if k is not None:
             known_hits[k["signature"]] = k
             continue
-        if len(violations) >= 3:
+        if len(violations) >= 8:
             continue
         try:
             v = handle_violation(mod, pid, seed, fl)
